@@ -599,3 +599,528 @@ pub proof fn lemma_hex_ok_blen(h: Seq<char>)
     }
     lemma_blen_ascii(h);
 }
+
+// ---- the output side: filepath_to_string's three chained `replace` calls are sp_escape -----------------
+
+pub proof fn lemma_replace_concat(a: Seq<char>, b: Seq<char>, c: char, to: Seq<char>)
+    ensures
+        sp_replace_char(a + b, c, to) == sp_replace_char(a, c, to) + sp_replace_char(b, c, to),
+    decreases a.len(),
+{
+    if a.len() == 0 {
+        assert(a + b =~= b);
+        assert(sp_replace_char(a, c, to) + sp_replace_char(b, c, to) =~= sp_replace_char(b, c, to));
+    } else {
+        assert((a + b).drop_first() =~= a.drop_first() + b);
+        lemma_replace_concat(a.drop_first(), b, c, to);
+        let h = if a[0] == c {
+            to
+        } else {
+            seq![a[0]]
+        };
+        assert(h + (sp_replace_char(a.drop_first(), c, to) + sp_replace_char(b, c, to)) =~= (h + sp_replace_char(
+            a.drop_first(),
+            c,
+            to,
+        )) + sp_replace_char(b, c, to));
+    }
+}
+
+pub open spec fn sp_replace3(s: Seq<char>) -> Seq<char> {
+    sp_replace_char(
+        sp_replace_char(sp_replace_char(s, '\\', seq!['\\', '\\']), '\n', seq!['\\', 'n']),
+        '\r',
+        seq!['\\', 'r'],
+    )
+}
+
+pub proof fn lemma_replace_one(x: char, c: char, to: Seq<char>)
+    ensures
+        sp_replace_char(seq![x], c, to) == (if x == c {
+            to
+        } else {
+            seq![x]
+        }),
+{
+    reveal_with_fuel(sp_replace_char, 2);
+    let s = seq![x];
+    assert(s.drop_first() =~= Seq::<char>::empty());
+    assert(sp_replace_char(s, c, to) =~= (if x == c {
+        to
+    } else {
+        seq![x]
+    }));
+}
+
+pub proof fn lemma_replace_two(x: char, y: char, c: char, to: Seq<char>)
+    requires
+        x != c,
+        y != c,
+    ensures
+        sp_replace_char(seq![x, y], c, to) == seq![x, y],
+{
+    let s = seq![x, y];
+    assert(s =~= seq![x] + seq![y]);
+    lemma_replace_concat(seq![x], seq![y], c, to);
+    lemma_replace_one(x, c, to);
+    lemma_replace_one(y, c, to);
+}
+
+pub proof fn lemma_replace3_char(x: char)
+    ensures
+        sp_replace3(seq![x]) == sp_esc_char(x),
+{
+    let bb = seq!['\\', '\\'];
+    let bn = seq!['\\', 'n'];
+    let br = seq!['\\', 'r'];
+    lemma_replace_one(x, '\\', bb);
+    lemma_replace_one(x, '\n', bn);
+    lemma_replace_one(x, '\r', br);
+    lemma_replace_two('\\', '\\', '\n', bn);
+    lemma_replace_two('\\', '\\', '\r', br);
+    lemma_replace_two('\\', 'n', '\r', br);
+}
+
+pub proof fn lemma_replace3_concat(a: Seq<char>, b: Seq<char>)
+    ensures
+        sp_replace3(a + b) == sp_replace3(a) + sp_replace3(b),
+{
+    let bb = seq!['\\', '\\'];
+    let bn = seq!['\\', 'n'];
+    let br = seq!['\\', 'r'];
+    lemma_replace_concat(a, b, '\\', bb);
+    let a1 = sp_replace_char(a, '\\', bb);
+    let b1 = sp_replace_char(b, '\\', bb);
+    lemma_replace_concat(a1, b1, '\n', bn);
+    let a2 = sp_replace_char(a1, '\n', bn);
+    let b2 = sp_replace_char(b1, '\n', bn);
+    lemma_replace_concat(a2, b2, '\r', br);
+}
+
+pub proof fn lemma_escape_is_replace3(s: Seq<char>)
+    ensures
+        sp_replace3(s) == sp_escape(s),
+    decreases s.len(),
+{
+    if s.len() == 0 {
+        reveal_with_fuel(sp_replace_char, 1);
+    } else {
+        assert(s =~= seq![s[0]] + s.drop_first());
+        lemma_replace3_concat(seq![s[0]], s.drop_first());
+        lemma_replace3_char(s[0]);
+        lemma_escape_is_replace3(s.drop_first());
+    }
+}
+
+// what b3sum prints for a path: the (possibly escaped) file field and the flag for the leading backslash
+pub open spec fn sp_file_field(p: Seq<char>) -> Seq<char> {
+    if sp_needs_escape(p) {
+        sp_escape(p)
+    } else {
+        p
+    }
+}
+
+// ============================ part 3: theorems about the format (clauses of C13) ==================
+
+// a first / last occurrence exists whenever an occurrence exists (so the `choose`s above are meaningful)
+pub proof fn lemma_first_occ_exists(s: Seq<char>, p: Seq<char>, k: int)
+    requires
+        sp_occurs_at(s, p, k),
+    ensures
+        exists|k0: int| sp_is_first_occ(s, p, k0),
+    decreases k,
+{
+    if exists|j: int| 0 <= j < k && sp_occurs_at(s, p, j) {
+        let j = choose|j: int| 0 <= j < k && sp_occurs_at(s, p, j);
+        lemma_first_occ_exists(s, p, j);
+    } else {
+        assert(sp_is_first_occ(s, p, k));
+    }
+}
+
+pub proof fn lemma_last_occ_exists(s: Seq<char>, p: Seq<char>, k: int)
+    requires
+        sp_occurs_at(s, p, k),
+    ensures
+        exists|k0: int| sp_is_last_occ(s, p, k0),
+    decreases s.len() - k,
+{
+    if exists|j: int| k < j && sp_occurs_at(s, p, j) {
+        let j = choose|j: int| k < j && sp_occurs_at(s, p, j);
+        lemma_last_occ_exists(s, p, j);
+    } else {
+        assert(sp_is_last_occ(s, p, k));
+    }
+}
+
+pub proof fn lemma_split_first_shape(s: Seq<char>, p: Seq<char>)
+    ensures
+        sp_split_first(s, p) matches Some((a, b)) ==> s == a + p + b,
+{
+    if sp_has_occ(s, p) {
+        let k1 = choose|k: int| sp_occurs_at(s, p, k);
+        lemma_first_occ_exists(s, p, k1);
+        let k = choose|k: int| sp_is_first_occ(s, p, k);
+        assert(s =~= s.take(k) + p + s.skip(k + p.len()));
+    }
+}
+
+pub proof fn lemma_split_last_shape(s: Seq<char>, p: Seq<char>)
+    ensures
+        sp_split_last(s, p) matches Some((a, b)) ==> s == a + p + b,
+{
+    if sp_has_occ(s, p) {
+        let k1 = choose|k: int| sp_occurs_at(s, p, k);
+        lemma_last_occ_exists(s, p, k1);
+        let k = choose|k: int| sp_is_last_occ(s, p, k);
+        assert(s =~= s.take(k) + p + s.skip(k + p.len()));
+    }
+}
+
+// the two line shapes
+pub open spec fn sp_line_shape(body: Seq<char>, hx: Seq<char>, f: Seq<char>) -> bool {
+    body == hx + sp_sep() + f || body == sp_tag_prefix() + f + sp_tag_sep() + hx
+}
+
+// C13, "for arbitrary text": a successful parse means the line (minus CR/LF terminators and the escape
+// flag) has one of the two shapes with a hash field of exactly 64 lowercase hex digits, the hash is
+// their decoding, the path is the documented unescaping of the file field (or the field itself), and
+// the path is non-empty without NUL / U+FFFD. Contrapositive: an empty line, a wrong-length, non-hex or
+// non-ASCII hash field, an invalid or dangling escape, an empty path, NUL or U+FFFD give an error.
+pub proof fn lemma_parse_ok_shape(line: Seq<char>)
+    ensures
+        sp_trim_eol(line).len() == 0 ==> sp_parse(line) is None,
+        sp_parse(line) matches Some(p) ==> {
+            let l = sp_trim_eol(line);
+            let body = if p.is_escaped {
+                l.skip(1)
+            } else {
+                l
+            };
+            &&& l.len() > 0
+            &&& p.is_escaped == (l[0] == '\\')
+            &&& exists|hx: Seq<char>| #[trigger]
+                sp_hex_ok(hx) && p.hash == sp_hex_decode(hx) && sp_line_shape(body, hx, p.file_string)
+            &&& sp_path_ok(p.path)
+            &&& (if p.is_escaped {
+                sp_unescape(p.file_string) == Some(p.path)
+            } else {
+                p.path == p.file_string
+            })
+        },
+{
+    let l = sp_trim_eol(line);
+    if l.len() > 0 {
+        let esc = l[0] == '\\';
+        let body = if esc {
+            l.skip(1)
+        } else {
+            l
+        };
+        match sp_split_tagged(body) {
+            Some((f, h)) => {
+                lemma_split_last_shape(body.skip(8), sp_tag_sep());
+                assert(body =~= sp_tag_prefix() + body.skip(8));
+                assert(body =~= sp_tag_prefix() + f + sp_tag_sep() + h);
+                if sp_parse(line) is Some {
+                    assert(sp_hex_ok(h) && sp_line_shape(body, h, f));
+                }
+            },
+            None => {
+                lemma_split_first_shape(body, sp_sep());
+                match sp_split_untagged(body) {
+                    Some((h, f)) => {
+                        if sp_parse(line) is Some {
+                            assert(sp_hex_ok(h) && sp_line_shape(body, h, f));
+                        }
+                    },
+                    None => {},
+                }
+            },
+        }
+    }
+}
+
+// a well-formed hash field is ASCII
+pub proof fn lemma_hex_ok_ascii(h: Seq<char>)
+    requires
+        sp_hex_ok(h),
+    ensures
+        sp_all_ascii(h),
+        h.len() == 64,
+{
+    assert forall|i: int| 0 <= i < h.len() implies (#[trigger] h[i] as u32) < 128 by {
+        assert(sp_is_lhex(h[i]));
+    }
+}
+
+// ---- the lines b3sum prints -----------------------------------------------------------------------
+
+pub open spec fn sp_hex_digit(v: int) -> char {
+    if v < 10 {
+        ((48 + v) as u8) as char
+    } else {
+        ((87 + v) as u8) as char
+    }
+}
+
+// lowercase hex of a byte string (what `Hash::to_hex` / the XOF hex output prints)
+pub open spec fn sp_hex_encode(h: Seq<u8>) -> Seq<char> {
+    Seq::new(
+        2 * h.len(),
+        |i: int|
+            sp_hex_digit(
+                if i % 2 == 0 {
+                    h[i / 2] as int / 16
+                } else {
+                    h[i / 2] as int % 16
+                },
+            ),
+    )
+}
+
+pub open spec fn sp_eol(crlf: bool) -> Seq<char> {
+    if crlf {
+        seq!['\r', '\n']
+    } else {
+        seq!['\n']
+    }
+}
+
+pub open spec fn sp_line_body(p: Seq<char>, h: Seq<u8>, tag: bool) -> Seq<char> {
+    if tag {
+        sp_tag_prefix() + sp_file_field(p) + sp_tag_sep() + sp_hex_encode(h)
+    } else {
+        sp_hex_encode(h) + sp_sep() + sp_file_field(p)
+    }
+}
+
+// hash_one_input: `\` if escaped, then "<hex>  <file>" or "BLAKE3 (<file>) = <hex>", then the terminator
+pub open spec fn sp_line(p: Seq<char>, h: Seq<u8>, tag: bool, crlf: bool) -> Seq<char> {
+    (if sp_needs_escape(p) {
+        seq!['\\']
+    } else {
+        Seq::<char>::empty()
+    }) + sp_line_body(p, h, tag) + sp_eol(crlf)
+}
+
+pub proof fn lemma_hex_digit(v: int)
+    requires
+        0 <= v < 16,
+    ensures
+        sp_is_lhex(sp_hex_digit(v)),
+        sp_hexval(sp_hex_digit(v)) == v,
+        sp_hex_digit(v) != ' ',
+        sp_hex_digit(v) != ')',
+        sp_hex_digit(v) != 'B',
+        sp_hex_digit(v) != '\\',
+        !sp_is_eol(sp_hex_digit(v)),
+{
+}
+
+pub proof fn lemma_hex_roundtrip(h: Seq<u8>)
+    requires
+        h.len() == 32,
+    ensures
+        sp_hex_ok(sp_hex_encode(h)),
+        sp_hex_decode(sp_hex_encode(h)) == h,
+        forall|i: int|
+            0 <= i < 64 ==> {
+                let c = #[trigger] sp_hex_encode(h)[i];
+                c != ' ' && c != ')' && c != 'B' && c != '\\' && !sp_is_eol(c)
+            },
+{
+    let e = sp_hex_encode(h);
+    assert forall|i: int| 0 <= i < 64 implies {
+        let c = #[trigger] e[i];
+        sp_is_lhex(c) && c != ' ' && c != ')' && c != 'B' && c != '\\' && !sp_is_eol(c)
+    } by {
+        let b = h[i / 2] as int;
+        lemma_hex_digit(b / 16);
+        lemma_hex_digit(b % 16);
+    }
+    assert forall|j: int| 0 <= j < 32 implies #[trigger] sp_hex_decode(e)[j] == h[j] by {
+        let b = h[j] as int;
+        lemma_hex_digit(b / 16);
+        lemma_hex_digit(b % 16);
+        assert((2 * j) / 2 == j && (2 * j) % 2 == 0);
+        assert((2 * j + 1) / 2 == j && (2 * j + 1) % 2 == 1);
+        assert(e[2 * j] == sp_hex_digit(b / 16));
+        assert(e[2 * j + 1] == sp_hex_digit(b % 16));
+        assert(16 * (b / 16) + b % 16 == b);
+    }
+    assert(sp_hex_decode(e) =~= h);
+}
+
+pub proof fn lemma_trim_eol_append(x: Seq<char>, crlf: bool)
+    requires
+        x.len() > 0,
+        !sp_is_eol(x.last()),
+    ensures
+        sp_trim_eol(x + sp_eol(crlf)) == x,
+{
+    let s = x + sp_eol(crlf);
+    assert(x =~= s.take(x.len() as int));
+    lemma_trim_eol_unique(s, x);
+}
+
+// escaping removes every CR / LF, never yields an empty field for a non-empty path, and is undone by unescaping
+pub proof fn lemma_escape_props(p: Seq<char>)
+    ensures
+        forall|i: int| 0 <= i < sp_escape(p).len() ==> !sp_is_eol(#[trigger] sp_escape(p)[i]),
+        sp_escape(p).len() >= p.len(),
+        sp_unescape(sp_escape(p)) == Some(p),
+    decreases p.len(),
+{
+    if p.len() == 0 {
+        assert(Some(p) == Some(Seq::<char>::empty())) by {
+            assert(p =~= Seq::<char>::empty());
+        }
+    } else {
+        let t = p.drop_first();
+        lemma_escape_props(t);
+        let e = sp_escape(p);
+        let et = sp_escape(t);
+        let c = p[0];
+        assert(e == sp_esc_char(c) + et);
+        assert(p =~= seq![c] + t);
+        if c == '\\' || c == '\n' || c == '\r' {
+            assert(e.skip(2) =~= et);
+            assert(sp_unesc_char(e[1]) == Some(c));
+        } else {
+            assert(e.drop_first() =~= et);
+        }
+        assert forall|i: int| 0 <= i < e.len() implies !sp_is_eol(#[trigger] e[i]) by {
+            if i >= sp_esc_char(c).len() {
+                assert(e[i] == et[i - sp_esc_char(c).len()]);
+            }
+        }
+    }
+}
+
+// C13, round trip: every line b3sum prints for a path that is valid Unicode without U+FFFD / NUL (and not
+// empty) -- plain or --tag form, escaped or not, LF or CRLF terminated -- parses back to exactly that
+// path and hash.
+pub proof fn lemma_roundtrip(p: Seq<char>, h: Seq<u8>, tag: bool, crlf: bool)
+    requires
+        sp_path_ok(p),
+        h.len() == 32,
+    ensures
+        sp_parse(sp_line(p, h, tag, crlf)) == Some(
+            SpParsed { hash: h, path: p, file_string: sp_file_field(p), is_escaped: sp_needs_escape(p) },
+        ),
+{
+    let esc = sp_needs_escape(p);
+    let fs = sp_file_field(p);
+    let hx = sp_hex_encode(h);
+    let body = sp_line_body(p, h, tag);
+    let pre = if esc {
+        seq!['\\']
+    } else {
+        Seq::<char>::empty()
+    };
+    let x = pre + body;
+    lemma_hex_roundtrip(h);
+    lemma_escape_props(p);
+    assert(hx.len() == 64);
+    // the file field: non-empty, free of CR / LF; not escaped => free of backslashes too
+    assert(fs.len() > 0);
+    assert forall|i: int| 0 <= i < fs.len() implies !sp_is_eol(#[trigger] fs[i]) by {
+        if !esc {
+            assert(!p.contains('\n') && !p.contains('\r'));
+        }
+    }
+    // 1. the terminator is stripped
+    assert(body.len() > 0 && !sp_is_eol(body.last())) by {
+        if tag {
+            assert(body.last() == hx[63]);
+        } else {
+            assert(body.last() == fs[fs.len() - 1]);
+        }
+    }
+    assert(x.last() == body.last());
+    lemma_trim_eol_append(x, crlf);
+    assert(sp_line(p, h, tag, crlf) == x + sp_eol(crlf));
+    // 2. the escape flag
+    assert(x.len() > 0);
+    assert(body[0] != '\\') by {
+        if tag {
+            assert(body[0] == 'B');
+        } else {
+            assert(body[0] == hx[0]);
+        }
+    }
+    assert((x[0] == '\\') == esc);
+    assert((if esc {
+        x.skip(1)
+    } else {
+        x
+    }) =~= body);
+    // 3. the split
+    if tag {
+        let rest = fs + sp_tag_sep() + hx;
+        assert(body =~= sp_tag_prefix() + rest);
+        assert(body.skip(8) =~= rest);
+        assert(body.subrange(0, 8) =~= sp_tag_prefix());
+        assert(sp_occurs_at(body, sp_tag_prefix(), 0));
+        assert forall|j: int| fs.len() < j implies !sp_occurs_at(rest, sp_tag_sep(), j) by {
+            if sp_occurs_at(rest, sp_tag_sep(), j) {
+                // rest[j] would have to be ')' but lies in " = <hex>"
+                assert(rest.subrange(j, j + 4)[0] == ')');
+                assert(rest[j] == ')');
+                if j < fs.len() + 4 {
+                    assert(rest[j] == sp_tag_sep()[j - fs.len()]);
+                } else {
+                    assert(rest[j] == hx[j - fs.len() - 4]);
+                }
+            }
+        }
+        lemma_split_last_unique(rest, sp_tag_sep(), fs, hx);
+        assert(sp_split_line(body) == Some((hx, fs)));
+    } else {
+        assert(body[0] == hx[0]);
+        assert(!sp_occurs_at(body, sp_tag_prefix(), 0)) by {
+            if sp_occurs_at(body, sp_tag_prefix(), 0) {
+                assert(body.subrange(0, 8)[0] == 'B');
+            }
+        }
+        assert(sp_split_tagged(body) is None);
+        assert forall|j: int| 0 <= j < 64 implies !sp_occurs_at(body, sp_sep(), j) by {
+            if sp_occurs_at(body, sp_sep(), j) {
+                assert(body.subrange(j, j + 2)[0] == ' ');
+                assert(body[j] == hx[j]);
+            }
+        }
+        lemma_split_first_unique(body, sp_sep(), hx, fs);
+        assert(sp_split_line(body) == Some((hx, fs)));
+    }
+    // 4. unescaping and the path checks
+    if esc {
+        assert(sp_unescape(fs) == Some(p));
+    }
+}
+
+// C13, "no two different paths ever yield lines that parse to the same path"
+pub proof fn lemma_no_confusion(
+    p1: Seq<char>,
+    h1: Seq<u8>,
+    t1: bool,
+    c1: bool,
+    p2: Seq<char>,
+    h2: Seq<u8>,
+    t2: bool,
+    c2: bool,
+)
+    requires
+        sp_path_ok(p1),
+        sp_path_ok(p2),
+        h1.len() == 32,
+        h2.len() == 32,
+        sp_parse(sp_line(p1, h1, t1, c1))->Some_0.path == sp_parse(sp_line(p2, h2, t2, c2))->Some_0.path,
+    ensures
+        p1 == p2,
+{
+    lemma_roundtrip(p1, h1, t1, c1);
+    lemma_roundtrip(p2, h2, t2, c2);
+}
